@@ -20,7 +20,7 @@ LEVEL_NOTE = ("Trusted: the reference model (30 lines) and the clock patch on ch
               "Only the in-memory manager shipped with the library is exercised.")
 RULE = ("sequence of operations; non-trivial = contains at least one creating op followed by another op; distinct = "
         "hash(sequence)+hash(final model state).")
-ASSUMPTIONS = ["integer-valued controlled clock (no float rounding at the expiry boundary)"]
+ASSUMPTIONS = ["controlled clock advancing in steps exactly representable in binary (0.25, 0.5, 1, ...), so the expiry boundary is exact"]
 
 
 class Clock:
@@ -205,7 +205,7 @@ TARGETS = [0, 1, 2]
 OPS: List[Tuple] = ([("create",), ("list_mutate",), ("clear",), ("init",), ("get",)]
                     + [("update", t) for t in TARGETS] + [("delete", t) for t in TARGETS]
                     + [("request", t) for t in TARGETS] + [("touch_meta", 0)]
-                    + [("cleanup", a) for a in (0, 1, 2)] + [("advance", d) for d in (1, 2)])
+                    + [("cleanup", a) for a in (0, 1, 2)] + [("advance", d) for d in (1, 2, 0.5)])
 
 
 def run_sequence(ctx, seq: List[Tuple], cls: str) -> Optional[Tuple]:
@@ -291,7 +291,8 @@ def run(ctx):
 
     # ---- seeded sequences ---------------------------------------------------
     n_short, n_long = (3000, 60) if ctx.tier == "quick" else (60000, 2000)
-    extra_ops = OPS + [("cleanup", None), ("advance", 3600), ("advance", 1800), ("request", 0, "tools/list"),
+    extra_ops = OPS + [("cleanup", None), ("advance", 3600), ("advance", 1800), ("advance", 0.25), ("advance", 1.5),
+                       ("advance", 3600.5), ("request", 0, "tools/list"),
                        ("init", "1999-01-01"), ("init", "2025-06-18"), ("update", 5), ("delete", 7), ("touch_meta", 1)]
     for k in range(n_short + n_long):
         L = rng.randint(4, 12) if k < n_short else 200
